@@ -39,6 +39,40 @@ CHECKS["C19"] = (
     "Trusted: reference model's accept/reject rules (DESIGN.md 4.3); same bounds as C09.",
     "DESIGN.md 3, 5/C19")
 
+ENUM = "small-scope exhaustive input enumeration on the real classes against a brute-force oracle"
+CHECKS["C01"] = (
+    ENUM + " (same-graph-by-construction variants)",
+    "Every spec of complete bounded universes of the four classes is pushed through every renaming (all n! bijections up to "
+    "n=4/5), every insertion order family, and every symmetry-equivalent rewriting of every descriptor (all proper elements with "
+    "equal parity, all improper ones with opposite parity), static and inside stereo changes; ==, reversed ==, is_isomorphic "
+    "and reflexivity must hold on each. Empty, isolated-atom and disconnected graphs are in the universes.",
+    "Trusted: refgraph/refstereo construct the variants; bounds: graphs up to 4-5 atoms completely, up to 14 atoms for the "
+    "symmetric family; stereo-valid graphs only.",
+    "DESIGN.md 5/C01, 4.1, 4.4")
+CHECKS["C02"] = (
+    ENUM + " (all ordered pairs, oracle = backtracking search over all atom bijections)",
+    "All ordered pairs inside complete labelled universes (MolGraph n<=3 all x all, n=4 x representatives; thorough all 1.2M "
+    "labelled pairs n<=4), representatives x representatives for larger universes of all four classes, single-feature "
+    "mutations of symmetric graphs and all cross-class pairs: whenever the library says equal, a brute-force search must find a "
+    "bijection preserving elements, bonds, bond roles, descriptors up to symmetry and stereo changes.",
+    "Trusted: refiso (self-tested against n! enumeration) and refstereo; fully specified parities only.",
+    "DESIGN.md 5/C02, 4.2")
+CHECKS["C03"] = (
+    ENUM + "; oracle-partition of complete labelled universes; fresh interpreters under a list of PYTHONHASHSEED values",
+    "hash(G)==hash(G') on every same-graph variant of C01's enumeration, one hash per oracle isomorphism class in complete "
+    "labelled universes, set/dict membership, and identical hash lines from fresh interpreter processes under each listed "
+    "string-hash seed.",
+    "Trusted: refiso/refstereo; the 2^32 seed space is cut to the listed seeds (quick 6, thorough 34).",
+    "DESIGN.md 5/C03")
+CHECKS["C16"] = (
+    ENUM + " (all pairs of the three stated families; integer comparison of hashes)",
+    "All pairs of class representatives whose (element, neighbour elements) multisets differ, all 70 element-distinct "
+    "tetrahedral quadruples and all 784 XYC=CZW double bonds with 0-2 atom chains (R/S, E/Z), all pairs of reaction graph "
+    "representatives whose reactant/product/TS multisets differ and every reaction vs its reverse: hashes must differ.",
+    "Trusted: the multiset computed from the reference model; E/Z collisions of the unchanged tree are listed input by input "
+    "in known_findings.json (pinned StereoMolGraph hash values forbid a repair).",
+    "DESIGN.md 5/C16")
+
 NOT_YET = {
 }
 
